@@ -78,6 +78,7 @@ def analyse(ctx: Ctx, classes: dict, decorators: dict | None, where: str, rel: s
                             "from __gt__/__eq__ is modelled")
     if "__eq__" not in pos or "__gt__" not in pos:
         return
+    unproved = []
     for m in ("__eq__", "__gt__"):
         fn = pos[m]
         ctx.fn(f"{where}:Position.{m}")
@@ -86,7 +87,19 @@ def analyse(ctx: Ctx, classes: dict, decorators: dict | None, where: str, rel: s
         names = {a.arg for a in fn.args.args}
         why = field_uses_only_in_comparisons(fn, names)
         if why:
-            raise AnalysisError(f"{rel}: Position.{m}: {why}; the finite-representative argument does not apply")
+            unproved.append(f"Position.{m}: {why}")
+    for cn in ("Range", "Location"):
+        fn = classes[cn].get("__eq__")
+        if fn is not None and len(fn.args.args) == 2:
+            why = field_uses_only_in_comparisons(fn, {a.arg for a in fn.args.args})
+            if why:
+                unproved.append(f"{cn}.__eq__: {why}")
+    grid = GRID
+    if unproved:
+        # The side condition that lets 4^4 order-representatives decide all pairs does not hold (the fields
+        # are used in arithmetic / method calls).  No proof is possible here; look for a refutation on the
+        # uinteger boundary grid instead.  A concrete counter-example is a violation; none found = analysis error.
+        grid = (0, 1, 2, 65535, 65536, 65537, 2 ** 31 - 2, 2 ** 31 - 1)
 
     def call(cls, m, *args):
         try:
@@ -94,13 +107,22 @@ def analyse(ctx: Ctx, classes: dict, decorators: dict | None, where: str, rel: s
         except Raised as e:
             return ("raised", e.exc_name)
     n = 0
-    for sl, sc, ol, oc in itertools.product(GRID, repeat=4):
+    seen_cases = set()
+    for sl, sc, ol, oc in itertools.product(grid, repeat=4):
         a, b = P(sl, sc), P(ol, oc)
         eq = call("Position", "__eq__", a, b)
         gt = call("Position", "__gt__", a, b)
         weq = (sl, sc) == (ol, oc)
         wgt = (sl, sc) > (ol, oc)
         case = f"{where}:order(line {'<=>'[(sl > ol) - (sl < ol) + 1]}, char {'<=>'[(sc > oc) - (sc < oc) + 1]})"
+        if unproved:
+            # one witness per order case is enough
+            base_case = case
+            if base_case in seen_cases and not (eq is weq and gt is wgt):
+                continue
+            if not (eq is weq and gt is wgt):
+                seen_cases.add(base_case)
+            case += f":witness=({sl},{sc})vs({ol},{oc})"
         n += 1
         ctx.check(eq is weq, "position-eq-lexicographic", case,
                   f"({sl},{sc}) == ({ol},{oc}) gives {eq}, expected {weq}", rel, pos["__eq__"].lineno)
@@ -141,7 +163,8 @@ def analyse(ctx: Ctx, classes: dict, decorators: dict | None, where: str, rel: s
                   f"{where}:start{'==' if s1.fields == s2.fields else '!='} end{'==' if e1.fields == e2.fields else '!='}",
                   f"Range equality gives {r}, expected {want}", rel)
     rs = [R(P(0, 0), P(0, 1)), R(P(0, 0), P(0, 2))]
-    for u1, r1, u2, r2 in itertools.product(["a", "b"], rs, ["a", "b"], rs):
+    uris = ["a", "b"] if not unproved else ["a", "A", "b", "file:///c%3A/x", "file:///C%3A/x", " a", "a "]
+    for u1, r1, u2, r2 in itertools.product(uris, rs, uris, rs):
         r = call("Location", "__eq__", L(u1, r1), L(u2, r2))
         want = u1 == u2 and r1.fields["end"].fields == r2.fields["end"].fields
         ctx.check(r is want, "location-eq-structural",
@@ -155,6 +178,11 @@ def analyse(ctx: Ctx, classes: dict, decorators: dict | None, where: str, rel: s
               f"repr(Range) folds to {call('Range', '__repr__', R(p1, p2))!r}", rel)
     ctx.check(call("Location", "__repr__", L("file:///x.py", R(p1, p2))) == "file:///x.py:3:7-41:9", "repr",
               f"{where}:Location", f"repr(Location) folds to {call('Location', '__repr__', L('file:///x.py', R(p1, p2)))!r}", rel)
+    if unproved:
+        mine = [f for f in ctx.findings if f.construct.startswith(where)]
+        if not mine:
+            raise AnalysisError(f"{rel}: {'; '.join(unproved)}: the finite-representative argument does not apply and the "
+                                "boundary grid found no counter-example; the property is undecided for this code")
     if decorators is not None:
         d = decorators
         ctx.check("functools.total_ordering" in d["Position"], "decorators", f"{where}:Position:total_ordering",
